@@ -365,3 +365,129 @@ Definition si_detached (el' sg : node) : res node :=
   do ctx2 <- sub_ctx ctx1 (attrs_of sg);
   do ctx3 <- sub_ctx ctx2 (attrs_of sg);
   match kids_of sg with si :: _ => detach_sorted ctx3 si | [] => Err (EOther "no-signedinfo") end.
+
+(* ================================================================ 6. sign, then verify *)
+Section SignVerify.
+  Variable canon : canon_alg -> node -> option string.
+  Variable digest : string -> string -> option string.
+  Variable sig_ok : cert -> string -> string -> string -> bool.
+  Variable parse_cert : string -> option cert.
+  Variable reparse : string -> option node.
+  Variable sign : string -> string -> string -> string.     (* signing key, SignatureMethod identifier, bytes -> raw signature *)
+  Variable key : string.     (* the SP's signing key (identity, as in Build.ctx_signing_key) *)
+  Variable der : string.     (* the certificate bytes the SP embeds / reports *)
+  Variable crt : cert.       (* what x509.ParseCertificate makes of them *)
+
+  (* LAWS OF THE ORACLES *)
+  Hypothesis H_sign_verifies : forall m b, sig_ok crt m b (sign key m b) = true.   (* key and certificate are a pair *)
+  Hypothesis H_sign_nonempty : forall m b, sign key m b <> "".
+  Hypothesis H_parse_cert : parse_cert der = Some crt.
+  Hypothesis H_digest_len : forall alg b d, digest alg b = Some d -> 20 <= String.length d.
+  (* re-parsing the canonical bytes of a detached SignedInfo yields the tree canonicalPrep / TransformExcC14n prepared *)
+  Hypothesis H_reparse_signed_info : forall cid det sa p b,
+    tag_of det = "SignedInfo" -> si_prep cid det = Ok (sa, p) -> canon sa det = Some b -> reparse b = Some p.
+
+  Lemma verify_embedded now sg :
+    sg_keyinfo sg = Some [chd (base64_encode der)] -> der <> "" -> cert_valid_at crt now = true ->
+    verify_certificate parse_cert [crt] now sg = Ok crt.
+  Proof.
+    intros HK Hder Hv. unfold verify_certificate, untrusted_cert. rewrite HK, chd_base64.
+    pose proof (base64_nonempty der Hder) as HN. apply str_eqb_neq in HN. rewrite HN.
+    rewrite strip_space_base64, base64_decode_encode, H_parse_cert. cbn [bind].
+    unfold pick_root. cbn [fold_left]. rewrite String.eqb_refl, Hv. reflexivity.
+  Qed.
+
+  Theorem signed_message_verifies cx el dv sv el' sg signed now sm bytes d det sa p sib v :
+    construct_signature cx el (Ok (dv, sv)) = ORet (Ok (el', sg)) ->
+    sign_placement el' sg = ORet (Ok signed) ->
+    signable el' = true ->
+    In (canon_id (cx_canon cx)) c14n_ids -> signer_alg (cx_canon cx) = alg_of_id (canon_id (cx_canon cx)) ->
+    ctx_certs (cx_keys cx) = Ok [der] -> der <> "" ->
+    ctx_signing_key (cx_keys cx) = Some (Ok key) ->
+    cert_valid_at crt now = true ->
+    canon (signer_alg (cx_canon cx)) el' = Some bytes -> digest (digest_id (cx_hash cx)) bytes = Some d -> dv = base64_encode d ->
+    declared_method cx = Some sm ->
+    si_detached el' sg = Ok det -> si_prep (canon_id (cx_canon cx)) det = Ok (sa, p) -> canon sa det = Some sib ->
+    sv = base64_encode (sign key sm sib) ->
+    reparse bytes = Some v ->
+    dsig_validate canon digest sig_ok parse_cert reparse [crt] now signed = DOk v.
+  Proof.
+    intros HCS HPL HSG HCin HCalg HCerts Hder Hkey Hvalid Hcan Hdig Hdv Hsm Hdet Hprep Hsib Hsv Hrep.
+    unfold construct_signature in HCS. unfold declared_method in Hsm.
+    destruct (ctx_pk (cx_keys cx)) as [pk|]; [|discriminate].
+    rewrite Hsm in HCS.
+    destruct (canon_apply (cx_canon cx) el) as [el''|]; [|discriminate].
+    rewrite HCerts in HCS. inversion HCS; subst el'' sg. clear HCS.
+    destruct el' as [sp t a [|c0 rest]| | | |]; try discriminate HSG.
+    cbn [sign_placement] in HPL. inversion HPL; subst signed. clear HPL.
+    set (cid := canon_id (cx_canon cx)) in *. set (h := cx_hash cx) in *.
+    cbn [attrs_of] in *. set (ref := select_attr_value "ID" a) in *.
+    (* signable *)
+    unfold signable in HSG.
+    apply andb_prop in HSG as [HSG Hcrf]. apply andb_prop in HSG as [HSG Hid]. apply andb_prop in HSG as [HSG Hcnt].
+    apply andb_prop in HSG as [HSG Hctx]. apply andb_prop in HSG as [He0 Hex].
+    apply existsb_exists in Hex as (L & HL & HLeq). apply list_attr_eqb_eq in HLeq.
+    assert (HS : sub_context default_ctx a = Ok (ctx_of L)) by (rewrite sub_context_filter, HLeq; apply ctx_of_ok; exact HL).
+    rewrite HS in Hctx. destruct (lookup_prefix (ctx_of L) sp) as [ns|] eqn:ELk; [|discriminate].
+    apply andb_prop in Hctx as [Hns HQ]. apply Bool.negb_true_iff in Hns.
+    apply Nat.leb_le in Hcnt. apply str_eqb_eq in Hid. fold ref in Hid.
+    unfold cr_free in Hcrf. apply str_eqb_eq in Hcrf. rewrite Hid in Hcrf.
+    (* the texts *)
+    destruct (sig_method_facts _ _ _ Hsm) as [Hsmcr Hsmk].
+    pose proof (H_digest_len _ _ _ Hdig) as Hlen.
+    assert (Hd0 : d <> "") by (intros ->; cbn in Hlen; lia).
+    assert (Hdv0 : dv <> "") by (subst dv; apply base64_nonempty; exact Hd0).
+    assert (Hsv0 : sv <> "") by (subst sv; apply base64_nonempty; apply H_sign_nonempty).
+    rewrite (signature_element_tree sm cid h ref dv sv der Hdv0 Hsv0 Hder) in *.
+    set (uri := if ref =?s "" then "" else ("#" ++ ref)%string) in *.
+    set (hid := digest_id h) in *.
+    set (si := si_el sm cid uri hid dv) in *.
+    set (c64 := base64_encode der) in *.
+    assert (Hidr : id_of (Elem sp t a (c0 :: sig_tree si sv c64 :: rest)) = ref) by exact Hid.
+    assert (Hrok : ref_ok ref uri = true).
+    { unfold ref_ok, uri, cr. destruct (ref =?s "") eqn:Er; [reflexivity|].
+      rewrite cr_hash, Hcrf. cbn [drop1 String.append]. rewrite String.eqb_refl. cbn. reflexivity. }
+    (* the detached SignedInfo is the one of the case analysis *)
+    assert (Hdet' : det = si_det L si).
+    { unfold si_detached in Hdet. cbn [attrs_of kids_of sig_tree] in Hdet.
+      pose proof HS as HS2. apply sub_ctx_ok in HS2. rewrite HS2 in Hdet. cbn [bind] in Hdet.
+      change (sub_ctx (ctx_of L) [dsdecl]) with (Ok (("ds", ds_ns) :: ctx_of L) : res nsctx) in Hdet. cbn [bind] in Hdet.
+      change (sub_ctx (("ds", ds_ns) :: ctx_of L) [dsdecl]) with (Ok (("ds", ds_ns) :: ("ds", ds_ns) :: ctx_of L) : res nsctx) in Hdet. cbn [bind] in Hdet.
+      unfold si in Hdet. rewrite (si_det_ok L sm cid uri hid dv HL) in Hdet. inversion Hdet. reflexivity. }
+    subst det.
+    assert (Hprepd : si_prepared cid (si_det L si) = (sa, p)) by (unfold si_prepared; rewrite Hprep; reflexivity).
+    unfold dsig_validate, validate_res.
+    rewrite (find_signature_second_child sp t a c0 (sig_tree si sv c64) rest (ctx_of L) ns (("ds", ds_ns) :: ctx_of L)
+               (sig_tree (snd (si_prepared cid (si_det L si))) sv c64) (found L sm cid uri hid dv sv c64) HS ELk Hns He0 HQ Hcnt eq_refl eq_refl).
+    2:{ intros l. rewrite Hidr. apply handler_on_signature; assumption. }
+    cbn [bind fst snd].
+    rewrite (verify_embedded now (fs_sig (found L sm cid uri hid dv sv c64)) eq_refl Hder Hvalid). cbn [no_missing bind].
+    set (sg' := sig_tree (snd (si_prepared cid (si_det L si))) sv c64) in *.
+    set (root' := Elem sp t a (c0 :: sg' :: rest)) in *.
+    assert (Hidr' : id_of root' = ref) by exact Hid.
+    pose proof HS as HS2. apply sub_ctx_ok in HS2.
+    assert (HCSI : canonical_signed_info canon root' (found L sm cid uri hid dv sv c64) = Ok sib).
+    { unfold canonical_signed_info, root'. cbn [found fs_path fs_si_alg fs_si_detached parent_ctx node_at kids_of attrs_of nth_error].
+      rewrite HS2. cbn [bind].
+      destruct (find_replaced_signed_info L sm cid uri hid dv sv c64 HL HCin) as (x & lim & Hf). fold si in Hf. fold sg' in Hf.
+      rewrite Hf. cbn [bind fst]. fold si. rewrite Hprepd. cbn [fst]. rewrite Hsib. reflexivity. }
+    unfold validate_signature.
+    cbn [found fs_sig sig_rec sg_signed_info sg_value].
+    rewrite HCSI. cbn [bind sinfo_rec si_sig_alg]. rewrite Hsmcr, Hsmk. cbn [negb].
+    rewrite Hsv, chd_base64, base64_decode_encode, H_sign_verifies. cbn [negb].
+    destruct (detach_sorted_shape _ _ _ (si_det_ok L sm cid uri hid dv HL)) as [Htag _]. fold si in Htag.
+    rewrite (H_reparse_signed_info cid (si_det L si) sa p sib Htag Hprep Hsib).
+    replace p with (snd (si_prepared cid (si_det L si))) by (rewrite Hprepd; reflexivity).
+    unfold si. rewrite (unmarshal_prepared_signed_info L sm cid uri hid dv HL HCin). fold si. cbn [bind].
+    unfold pick_reference. rewrite Hidr'. cbn [sinfo_rec si_refs].
+    match goal with |- context [existsb (ref_matches ref) ?l] => change (existsb (ref_matches ref) l) with (ref_ok ref uri) end.
+    rewrite Hrok. cbn [last ref_digest_value].
+    rewrite Hdv, chd_base64, base64_decode_encode.
+    unfold transform. cbn [ref_transforms found fs_path]. rewrite (cr_c14n_id cid HCin).
+    unfold root'. rewrite (transforms_enveloped_then cid sp t a c0 sg' rest HCin eq_refl). cbn [bind fst snd].
+    rewrite <- HCalg, Hcan. cbn [ref_digest_alg]. unfold hid. rewrite digest_id_cr. fold hid. rewrite Hdig.
+    rewrite String.eqb_refl. cbn [negb].
+    assert (Hl20 : Nat.ltb (String.length d) 20 = false) by (apply Nat.ltb_ge; exact Hlen).
+    rewrite Hl20, Hrep. reflexivity.
+  Qed.
+End SignVerify.
